@@ -5,7 +5,7 @@ import re
 KEYWORDS = {'func', 'requires', 'ensures', 'modifies', 'loop', 'invariant', 'decreases', 'writes', 'spec',
             'axiom', 'lemma', 'typeinv', 'effect', 'property', 'wrap', 'track', 'trusted', 'assume',
             'pure', 'ovf', 'replay', 'note', 'havoc', 'package', 'funcvar', 'ghost', 'reads', 'bounded', 'use',
-            'assert', 'cut', 'opaque', 'params', 'global', 'globalinv', 'exit', 'entry', 'skip', 'callsite', 'frees'}
+            'assert', 'cut', 'opaque', 'params', 'deadreturns', 'global', 'globalinv', 'exit', 'entry', 'skip', 'callsite', 'frees'}
 
 
 class SpecError(Exception):
@@ -378,9 +378,9 @@ class Specs(object):
                     cur.induction = mi.group(1)
                 if 'trusted' in extra.split():
                     cur.trusted = True
-                mb = re.search(r'bounded\s+(\d+)', extra)
-                if mb:
-                    cur.bounded = int(mb.group(1))
+                if 'bounded' in extra.split():
+                    cur.bounded = True
+                cur.box = None
                 self.lemmas[cur.name] = cur
                 cur.pkg = pkg
                 curloop = None
@@ -414,6 +414,14 @@ class Specs(object):
             elif kw == 'typeinv':
                 tname, e = rest.split(None, 1)
                 self.typeinvs.setdefault(tname, []).append(Clause('typeinv', e, props, src))
+            elif kw == 'bounded' and isinstance(cur, Lemma):
+                box = {}
+                for part in rest.split():
+                    mm2 = re.match(r'^(.+)=(-?\d+)\.\.(-?\d+)$', part)
+                    if not mm2:
+                        raise SpecError('%s: bounded NAME=lo..hi' % src)
+                    box[mm2.group(1)] = (int(mm2.group(2)), int(mm2.group(3)))
+                cur.box = box
             elif cur is None:
                 raise SpecError('%s: %s outside func' % (src, kw))
             elif kw == 'property':
@@ -454,6 +462,10 @@ class Specs(object):
                 cl.anchor = ma.group(1)
                 cur.anchored = getattr(cur, 'anchored', [])
                 cur.anchored.append(cl)
+            elif kw == 'cut':
+                ma = re.match(r'@"([^"]*)"\s*(.*)$', rest)
+                cur.cuts = getattr(cur, 'cuts', [])
+                cur.cuts.append((ma.group(1), ma.group(2)))
             elif kw == 'assert' and rest.startswith('@'):
                 ma = re.match(r'@"([^"]*)"\s*(.*)$', rest)
                 cl = Clause('assert', ma.group(2), props, src)
@@ -472,7 +484,7 @@ class Specs(object):
                 cur.induction = rest
             elif kw == 'params':
                 cur.opts['params'] = rest.replace(',', ' ').split()
-            elif kw in ('wrap', 'track', 'ovf', 'pure', 'havoc', 'skip', 'entry', 'exit', 'ghost'):
+            elif kw in ('deadreturns', 'wrap', 'track', 'ovf', 'pure', 'havoc', 'skip', 'entry', 'exit', 'ghost'):
                 cur.opts.setdefault(kw, []).append(rest)
             elif kw == 'trusted':
                 cur.trusted = True
